@@ -81,10 +81,10 @@ kproof!(noerr, 4, fn c04_q_builtin_check_arity_agrees() {
 });
 
 // ---------------------------------------------------------------------------------------------
-// positional binding, binding phase only (the body is cut): every argument count that the
-// arity check lets through is bound without indexing out of range.  Only parameter lists whose
-// binding needs at most one map insertion before the interesting point are in reach (a second
-// hashbrown insertion does not finish under CBMC).
+// positional binding, binding phase only: every argument count that the arity check lets through
+// is bound without indexing out of range.  The lambda body is cut (evaluate_ast stubbed) and the
+// insertions into the call-local map are no-ops (HashMap::insert stubbed): what is decided is the
+// indexing of the argument vector, not what ends up bound.
 macro_rules! c04_binding_phase {
     ($name:ident, $args:expr, $vals:expr) => {
         #[cfg(kani)]
@@ -100,6 +100,7 @@ macro_rules! c04_binding_phase {
         #[kani::stub(::anyhow::Error::msg, crate::util::stub_anyhow_msg_cut)]
         #[kani::stub(::anyhow::__private::format_err, crate::util::stub_anyhow_format_err_cut)]
         #[kani::stub(blots_core::expressions::evaluate_ast, crate::util::stub_evaluate_ast_null)]
+        #[kani::stub(std::collections::HashMap::insert, crate::util::stub_hashmap_insert)]
         pub fn $name() {
             let a: f64 = kani::any();
             let def = lambda_def($args);
@@ -113,7 +114,11 @@ macro_rules! c04_binding_phase {
     };
 }
 use blots_core::values::Value;
-c04_binding_phase!(c04_t_binding_optional_before_required, vec![opt("a"), req("b")], |a| crate::av![Value::Number(a)]);
-c04_binding_phase!(c04_t_binding_rest_before_required, vec![rest("r"), req("b")], |a| crate::av![Value::Number(a)]);
-c04_binding_phase!(c04_t_binding_single_required, vec![req("a")], |a| crate::av![Value::Number(a)]);
+c04_binding_phase!(c04_q_binding_optional_before_required_1, vec![opt("a"), req("b")], |a| crate::av![Value::Number(a)]);
+c04_binding_phase!(c04_t_binding_optional_before_required_2, vec![opt("a"), req("b")], |a| crate::av![Value::Number(a), Value::Null]);
+c04_binding_phase!(c04_t_binding_rest_before_required_1, vec![rest("r"), req("b")], |a| crate::av![Value::Number(a)]);
+c04_binding_phase!(c04_t_binding_opt_opt_req_1, vec![opt("a"), opt("b"), req("c")], |a| crate::av![Value::Number(a)]);
+c04_binding_phase!(c04_t_binding_req_opt_rest_1, vec![req("a"), opt("b"), rest("r")], |a| crate::av![Value::Number(a)]);
+c04_binding_phase!(c04_t_binding_req_opt_rest_3, vec![req("a"), opt("b"), rest("r")], |a| crate::av![Value::Number(a), Value::Null, Value::Number(a)]);
+c04_binding_phase!(c04_t_binding_req_req_2, vec![req("a"), req("b")], |a| crate::av![Value::Number(a), Value::Null]);
 c04_binding_phase!(c04_t_binding_single_optional_no_arg, vec![opt("a")], |_a| crate::av![]);
